@@ -346,9 +346,24 @@ function c11Violation(ctx, cls, detail) {
 }
 
 // model path: a data path relative to the data object the generated code is running with
+// a path is addressable in D when no proper prefix of it ends in a primitive (a count or a string
+// used as a for-list has items but no locations)
+function addressable(D, path) {
+  let cur = D
+  for (let i = 0; i < path.length; i += 1) {
+    if (cur === null || cur === undefined) return true
+    if (typeof cur !== 'object') return false
+    cur = cur[path[i]]
+  }
+  return true
+}
 function checkDataPath(ctx, st, what, path, value) {
   ctx.counters['probe.c11.model_get_checked'] = (ctx.counters['probe.c11.model_get_checked'] || 0) + 1
   const D = st.curData
+  if (!addressable(D, path)) {
+    ctx.counters['probe.c11.path_through_primitive'] = (ctx.counters['probe.c11.path_through_primitive'] || 0) + 1
+    return
+  }
   const got = getPath(D, path)
   if (!Object.is(got, value)) {
     c11Violation(ctx, 'model_path_get_mismatch', `${what} in ${st.tag}: emitted path ${enc(path)} addresses ${enc(got)} but the expression evaluated to ${enc(value)}`)
@@ -516,7 +531,20 @@ const S = (root) => enc({ shadow: ser(root.getShadowRoot()), composed: serCompos
 const locusOf = (liveRoot, freshRoot) => {
   const a = ser(liveRoot.getShadowRoot())
   const b = ser(freshRoot.getShadowRoot())
-  if (enc(a) === enc(b)) return ['composed-order-only']
+  if (enc(a) === enc(b)) {
+    // the shadow trees agree; the composed trees (what is rendered where) do not
+    const walk = (x, y, path) => {
+      if (!Array.isArray(x) || !Array.isArray(y)) return [...path, '#text']
+      const here = [...path, String(x[0]).replace(/^\((.*)\)$/, '($1)')]
+      if (x[0] !== y[0]) return [...here, '@tag']
+      for (let i = 1; i < Math.max(x.length, y.length); i += 1) {
+        if (x[i] === undefined || y[i] === undefined) return [...here, '@children']
+        if (enc(x[i]) !== enc(y[i])) return walk(x[i], y[i], here)
+      }
+      return here
+    }
+    return ['composed', ...walk(serComposed(liveRoot), serComposed(freshRoot), [])]
+  }
   return firstDiffLocus(a, b)
 }
 
@@ -869,6 +897,7 @@ function runWorld(job) {
       if (!entry || !entry.path) continue
       bump(ctx, 'probe.c11.live_listener_checked')
       const D = entry.st === rootSt ? curD() : entry.st.curData
+      if (!addressable(D, entry.path)) continue
       const got = getPath(D, entry.path)
       let shown
       if (l.kind === 'native') {
@@ -877,7 +906,8 @@ function runWorld(job) {
       } else {
         shown = l.node.data[l.name]
       }
-      const same = Object.is(got, shown) || (isObj(got) && isObj(shown) && deepEq(got, shown))
+      // a component property normalises its input (undefined becomes the declared default, null)
+      const same = Object.is(got, shown) || (isObj(got) && isObj(shown) && deepEq(got, shown)) || (l.kind === 'component' && got === undefined && shown === null)
       if (!same) {
         violation('C11', 'live_listener_path_stale', `after step ${step}: the model listener of <${l.node.is}> ${l.name} holds path ${enc(entry.path)} which addresses ${enc(got)}, but the element displays ${enc(shown)}`)
       }
@@ -977,7 +1007,16 @@ function runWorld(job) {
           bump(ctx, 'step.op_skipped')
           continue
         }
-        const l = ls[op[1] % ls.length]
+        if (dataGroup._$pendingChanges && dataGroup._$pendingChanges.length) {
+          // a view that lags behind queued changes is the user's race, not a wrong path:
+          // bring it up to date before writing through it
+          root.applyDataUpdates()
+          afterFlush('premodel@' + step)
+          if (ended || res.violation) break
+        }
+        const ls2 = collectModelListeners(root)
+        if (!ls2.length) continue
+        const l = ls2[op[1] % ls2.length]
         const v = dec(op[2])
         ctx.log.push(`model ${l.kind} <${l.node.is}> ${l.name} ${enc(v)}`)
         const rec = ctx.modelPaths.get(l.node)
@@ -988,13 +1027,18 @@ function runWorld(job) {
           bump(ctx, 'fault.model_write')
         } else {
           // a component writes its own property; the runtime then calls the listener
+          const beforeVal = l.node.data[l.name]
           l.node.setData({ [l.name]: clone(v) })
           bump(ctx, 'fault.child_model_write')
+          // a write that does not change the property is not propagated (nothing to check)
+          if (Object.is(beforeVal, l.node.data[l.name]) || !l.node.parentNode) entry = null
         }
-        // put: the location the path named now holds v
+        // put: the location the path named now holds the value the listener was given
+        // (for a component: its property value after the component's own normalisation)
         if (entry && entry.path && entry.st === rootSt) {
           const got = getPath(curD(), entry.path)
-          if (!(Object.is(got, v) || (isObj(got) && deepEq(got, v)))) {
+          const expected = l.kind === 'native' ? v : v === undefined ? null : v
+          if (!(Object.is(got, expected) || (isObj(got) && deepEq(got, expected)))) {
             violation('C11', 'model_put_not_at_path', `writing ${enc(v)} through the model listener of <${l.node.is}> ${l.name} (path ${enc(entry.path)}) left ${enc(got)} at that path`)
           }
           bump(ctx, 'probe.c11.put_checked')
